@@ -84,7 +84,7 @@ def provider(rates, calls):
             return out
         def beam_population_rate(self, b, m, p, q):
             calls.append(("bmp", m, name(p, q)))
-            return mk(R.BeamPopulationRate, float(rates["bmp"][name(p, q)]), "bmp:" + name(p, q))
+            return mk(R.BeamPopulationRate, float(rates["bmp"][name(p, q)][m - 2]), "bmp:" + name(p, q))
         def beam_emission_pec(self, b, p, q, transition):
             calls.append(("bes", name(p, q)))
             return mk(R.BeamEmissionPEC, rates["bes"][name(p, q)] * UNIT, "bes:" + name(p, q))
